@@ -90,3 +90,62 @@ def _path_skipping(cfg, is_app):
     `continue` inside the synthetic body has no loop frame, so the body is built with continue==return: handled by
     treating Continue statements as exits through a pre-pass below."""
     return cfg.path_avoiding(cfg.entry, cfg.exit, is_app)
+
+
+def slices(ctx, rep):
+    """R-C23-slice: `_batch_postprocessing(results, individual_fns, slices)` applies the i-th function to `results[slices[i]]`."""
+    ix = ctx.index
+    rel = "pennylane/core/transforms/compile_pipeline.py"
+    f = ix.func(rel, "_batch_postprocessing")
+    rep.rule("R-C23-slice", "in _batch_postprocessing every call of an element of `individual_fns` receives `results` subscripted by the element of "
+             "`slices` paired with it (same zip, or the same index): the recorded slices, not positions or counts, say which results belong to "
+             "which tape — a transform may turn one tape into zero or several")
+    rep.analysed(rel, f.qualname)
+    params = [a.arg for a in f.node.args.args + f.node.args.kwonlyargs]
+    if len(params) < 3:
+        rep.unknown("R-C23-slice", f"{rel}:_batch_postprocessing", "signature not recognised")
+        return
+    res_p, fns_p, sl_p = params[0], params[1], params[2]
+    n = 0
+    for comp in [x for x in ast.walk(f.node) if isinstance(x, (ast.GeneratorExp, ast.ListComp, ast.For))]:
+        gens = comp.generators if not isinstance(comp, ast.For) else [comp]
+        fn_var = sl_var = idx_var = None
+        for g in gens:
+            it, tg = g.iter, g.target
+            if isinstance(it, ast.Call) and norm(it.func) == "zip" and isinstance(tg, ast.Tuple):
+                for a_, t_ in zip(it.args, tg.elts):
+                    if isinstance(a_, ast.Name) and isinstance(t_, ast.Name):
+                        if a_.id == fns_p:
+                            fn_var = t_.id
+                        if a_.id == sl_p:
+                            sl_var = t_.id
+            elif isinstance(it, ast.Call) and norm(it.func) == "enumerate" and isinstance(tg, ast.Tuple) and len(tg.elts) == 2 \
+                    and it.args and isinstance(it.args[0], ast.Name) and all(isinstance(t_, ast.Name) for t_ in tg.elts):
+                if it.args[0].id == fns_p:
+                    idx_var, fn_var = tg.elts[0].id, tg.elts[1].id
+                if it.args[0].id == sl_p:
+                    idx_var, sl_var = tg.elts[0].id, tg.elts[1].id
+            elif isinstance(it, ast.Name) and it.id == fns_p and isinstance(tg, ast.Name):
+                fn_var = tg.id
+        if fn_var is None:
+            continue
+        body = [comp.elt] if not isinstance(comp, ast.For) else comp.body
+        for b in body:
+            for call in [x for x in ast.walk(b) if isinstance(x, ast.Call) and isinstance(x.func, ast.Name) and x.func.id == fn_var]:
+                n += 1
+                arg = call.args[0] if call.args else None
+                ok = False
+                if isinstance(arg, ast.Subscript) and isinstance(arg.value, ast.Name) and arg.value.id == res_p:
+                    sl = arg.slice
+                    if isinstance(sl, ast.Name) and sl.id == sl_var:
+                        ok = True
+                    if isinstance(sl, ast.Subscript) and isinstance(sl.value, ast.Name) and sl.value.id == sl_p and idx_var and norm(sl.slice) == idx_var:
+                        ok = True
+                where = f"{rel}:_batch_postprocessing `{norm(call)[:60]}`"
+                if ok:
+                    rep.proved("R-C23-slice", where, "function applied to results[<its slice>]")
+                else:
+                    rep.refuted("R-C23-slice", rel, "_batch_postprocessing", call,
+                                f"`{norm(call)[:70]}` does not hand the function the results selected by its own entry of `{sl_p}`: as soon as one "
+                                "transform of the stage maps a tape to zero or several tapes, results are routed to the wrong tape", line=call.lineno)
+    rep.floor("applications of per-tape post-processing functions", n, 1)
